@@ -440,6 +440,51 @@ def rule_wake(ctx, rep):
         waitloop.check_wakers(rep, "C03.wake", fl, ctx.mod(F.lib, "perfn"), lambda name, ap: name == "call_rcu_data.futex")
 
 
+def rule_default(ctx, rep):
+    """get_default_call_rcu_data() (the helper every call_rcu() without a private helper enqueues to) never hands out a stale
+    NULL: the lock-free fast path returns the pointer it read only if that was non-NULL; otherwise the value returned is read
+    again under call_rcu_mutex, after the creation of the helper or after having found that another thread created it."""
+    for fl in ALL:
+        F = FL[fl]
+        f = ctx.fn(F.lib, F.pfx + "_get_default_call_rcu_data")
+        rep.touch(f)
+        lk = pat.mutex_calls(f, "pthread_mutex_lock", "call_rcu_mutex")
+        pat.require(lk, "%s: get_default_call_rcu_data takes call_rcu_mutex" % fl)
+        bad = None
+        n = 0
+
+        def leaves(v, via, seen):
+            """(load, block the value arrives from) for every value that can be returned"""
+            v = ir.strip_casts(f, v)
+            if v[0] == "i" and f.insts[v[1]].op == "phi" and v[1] not in seen:
+                out = []
+                for val, blk in f.insts[v[1]].d["inc"]:
+                    out += leaves(val, blk, seen | {v[1]})
+                return out
+            return [(v, via)]
+        for r in f.rets():
+            for v, via in leaves(r.args[0], r.blk.id, frozenset()):
+                n += 1
+                L = f.insts[v[1]] if v[0] == "i" else None
+                if L is None or L.op != "load" or pat.base_global(L.d["ap"]) != "default_call_rcu_data":
+                    bad = ("can return %s" % ir.expr_str(ir.expr(f, v, 3)), r)
+                    break
+                if any(f.dominates(c, L) for c in lk):
+                    continue            # read under the lock
+                tail = f.blocks[via].insts[-1]
+                after_lock = f.reach(lk, [tail])[0] is not None
+                nonnull = any(a[0] == "ne" and a[2] == ("c", 0) and a[1][0] == "load" and a[1][3] == L.id for a in pat.dom_leaf_atoms(f, tail) + ir.edge_atoms(f, via, r.blk.id))
+                if after_lock:
+                    bad = ("on the slow path it can return the value of default_call_rcu_data it read *before* taking call_rcu_mutex (NULL when another thread created the helper meanwhile)", L)
+                    break
+                if not nonnull:
+                    bad = ("the fast path returns without having seen a non-NULL pointer", L)
+                    break
+        pat.require(n >= 2, "%s: return values of get_default_call_rcu_data" % fl)
+        rep.check(bad is None, "C03.default", fl + ".never-stale-null", "returns the default helper read under the lock, or a non-NULL pointer from the fast path",
+                  "get_default_call_rcu_data: %s - call_rcu() then enqueues through a NULL helper" % (bad[0] if bad else ""), [bad[1].where()] if bad else [])
+
+
 RULES = [
     ("C03.flags", rule_flags),
     ("C03.gp", rule_gp),
@@ -451,6 +496,7 @@ RULES = [
     ("C03.list", rule_list),
     ("C03.cb-nolock", rule_cb_nolock),
     ("C03.who", rule_who),
+    ("C03.default", rule_default),
     ("C03.wake", rule_wake),
 ]
 FLOORS = {}
